@@ -394,6 +394,11 @@ func init() {
 					if !ok {
 						continue
 					}
+					if apt, isP := st.Addr.Type().Underlying().(*types.Pointer); isP && containsNamed(apt.Elem(), "sequenceNumbers", 0) {
+						// a whole counter pair (or a struct that holds one) is overwritten
+						writers = append(writers, w.funcDisplay(f))
+						continue
+					}
 					fa, ok := st.Addr.(*ssa.FieldAddr)
 					if !ok {
 						continue
@@ -431,4 +436,113 @@ func init() {
 		r.Samples = []map[string]interface{}{{"obligation": "bmc:frame:sequenceNumbers.Inbound-has-one-writer", "writers": writers}}
 		return r
 	}
+}
+
+// containsNamed: t is the named type name, or a struct / array that holds one by value.
+func containsNamed(t types.Type, name string, depth int) bool {
+	if depth > 6 {
+		return false
+	}
+	if nt, ok := t.(*types.Named); ok && nt.Obj().Name() == name {
+		return true
+	}
+	switch u := t.Underlying().(type) {
+	case *types.Struct:
+		for i := 0; i < u.NumFields(); i++ {
+			if containsNamed(u.Field(i).Type(), name, depth+1) {
+				return true
+			}
+		}
+	case *types.Array:
+		return containsNamed(u.Elem(), name, depth+1)
+	}
+	return false
+}
+
+// Received messages are written only by their own decoders: a store into (or over) a struct of one
+// of the protected types anywhere else in the module means that what is later verified or returned is
+// no longer what the BMC sent. A syntactic frame check over go/ssa (no solver), like the C09 one.
+func receivedMessageWriters(w *World, protected func(name string) bool) (writers []string, scanned int) {
+	rootTypes := func(v ssa.Value) []string {
+		var out []string
+		for depth := 0; depth < 12; depth++ {
+			if pt, ok := v.Type().Underlying().(*types.Pointer); ok {
+				if nt, ok := pt.Elem().(*types.Named); ok {
+					out = append(out, nt.Obj().Name())
+				}
+			}
+			switch x := v.(type) {
+			case *ssa.FieldAddr:
+				v = x.X
+			case *ssa.IndexAddr:
+				v = x.X
+			default:
+				return out
+			}
+		}
+		return out
+	}
+	for f := range w.AllFuncs {
+		if f.Pkg == nil || f.Blocks == nil || !strings.HasPrefix(f.Pkg.Pkg.Path(), modPath) || strings.Contains(f.Pkg.Pkg.Path(), "/cmd/") || w.isContractFileFunc(f) {
+			continue
+		}
+		scanned++
+		recvName := ""
+		if f.Signature.Recv() != nil {
+			t := f.Signature.Recv().Type()
+			if pt, ok := t.(*types.Pointer); ok {
+				t = pt.Elem()
+			}
+			if nt, ok := t.(*types.Named); ok {
+				recvName = nt.Obj().Name()
+			}
+		}
+		for _, b := range f.Blocks {
+			for _, in := range b.Instrs {
+				st, ok := in.(*ssa.Store)
+				if !ok {
+					continue
+				}
+				if _, isAlloc := st.Addr.(*ssa.Alloc); isAlloc {
+					continue // initialisation of a local of that type
+				}
+				for _, n := range rootTypes(st.Addr) {
+					if protected(n) && n != recvName {
+						writers = append(writers, fmt.Sprintf("%s writes into a %s (%s)", w.funcDisplay(f), n, w.Fset.Position(st.Pos())))
+						break
+					}
+				}
+			}
+		}
+	}
+	sort.Strings(writers)
+	return
+}
+
+func receivedMessageCheck(prop, obligation, what string, protected func(name string) bool) func(w *World, prop string, thorough bool) specialResult {
+	return func(w *World, _ string, thorough bool) specialResult {
+		r := specialResult{Backend: "frame-scan (go/ssa, no solver)", Coverage: map[string]interface{}{}}
+		writers, n := receivedMessageWriters(w, protected)
+		r.Obligations = 1
+		if len(writers) == 0 {
+			r.Discharged = 1
+		} else {
+			p := fmt.Sprintf("%s/frame_received_messages.txt", replayDir(prop))
+			writeTextFile(p, "// Replay record written by bmcvc.\n// property:   "+prop+"\n// obligation: "+obligation+"\n// result:     no failing input found (syntactic frame check)\n//\n// "+what+" are written outside their decoders:\n//   "+strings.Join(writers, "\n//   ")+"\n")
+			r.Violations = append(r.Violations, fmt.Sprintf("VIOLATION property=%s replay=%s no-failing-input-found", prop, p))
+			fmt.Printf("  obligation %s fails: %v\n", obligation, writers)
+		}
+		r.Coverage["received_message_writers_outside_decoders"] = writers
+		r.Coverage["functions_scanned_for_received_message_writes"] = n
+		r.Samples = []map[string]interface{}{{"obligation": obligation, "writers": writers}}
+		return r
+	}
+}
+
+func init() {
+	handshake := func(n string) bool { return n == "OpenSessionRsp" || n == "RAKPMessage2" || n == "RAKPMessage4" }
+	specialChecks["C02"] = receivedMessageCheck("C02", "bmc:frame:handshake-responses-written-only-by-their-decoders",
+		"the Open Session Response, RAKP Message 2 and RAKP Message 4", handshake)
+	specialChecks["C11"] = receivedMessageCheck("C11", "bmc:frame:command-responses-written-only-by-their-decoders",
+		"command response structs (types named ...Rsp)", func(n string) bool { return strings.HasSuffix(n, "Rsp") && !handshake(n) })
 }
